@@ -32,7 +32,7 @@ def slot_size(t):
 
 # ---------------------------------------------------------------- prototype generation
 
-def gen_arg_type(rng, style, tail=False):
+def gen_arg_type(rng, style, tail=False, cf=False):
     """one argument type; tail=True: a variadic actual (MIR passes those as i64 / d / ld / blocks)"""
     r = rng.random()
     if tail:
@@ -62,7 +62,11 @@ def gen_arg_type(rng, style, tail=False):
     if name == 'int':
         return rng.choice(ITYS)
     if name == 'blk':
-        c = rng.choice([0, 0, 1, 1, 2, 2, 3, 4, 'r'] if not tail else [0, 1, 2, 3, 4])
+        c = rng.choice([0, 0, 1, 1, 2, 2, 3, 4, 'r'] if not tail and not cf else [0, 1, 2, 3, 4])
+        if cf:  # sizes for which a C struct of that psABI class exists (gen_c05_cfile.struct_def)
+            return {0: 'blk:%d' % rng.choice([3, 5, 12, 16, 17, 24, 40, 64]), 1: 'blk1:%d' % rng.choice([1, 4, 8, 9, 12, 16]),
+                    2: 'blk2:%d' % rng.choice([4, 8, 12, 16]), 3: 'blk3:%d' % rng.choice([12, 16]),
+                    4: 'blk4:%d' % rng.choice([9, 12, 13, 16])}[c]
         if c == 0:
             return 'blk:%d' % rng.choice([1, 3, 8, 9, 12, 16, 17, 24, 32, 40, 57, 64, 200])
         if c in (1, 2):
@@ -92,7 +96,10 @@ def gen_results(rng):
     return res
 
 
-def gen_proto(rng, maxargs=20, min_fixed=0):
+C_RESULTS = [[], ['i64', 'i64'], ['d', 'd'], ['i64', 'd'], ['d', 'i64'], ['ld', 'ld'], ['p', 'u64']]
+
+
+def gen_proto(rng, maxargs=20, min_fixed=0, cf=False):
     style = rng.choice(['int', 'fp', 'blk', 'ld', 'mix', 'mix'])
     n = rng.choice([0, 1, 2, 3, 5, 6, 7, 8, 9, 10, 12, 14, 17, maxargs])
     vararg = rng.random() < 0.35
@@ -102,13 +109,18 @@ def gen_proto(rng, maxargs=20, min_fixed=0):
         nfixed = rng.randint(min_fixed, n)
     args = []
     for i in range(n):
-        args.append(gen_arg_type(rng, style, tail=i >= nfixed))
+        args.append(gen_arg_type(rng, style, tail=i >= nfixed, cf=cf))
     # keep the stack argument area well inside the probe's capture window
     while sum(slot_size(a) for a in args) > 600:
         args.pop()
         nfixed = min(nfixed, len(args))
     if vararg and nfixed < min_fixed:
         vararg = False
+    if cf:
+        res = rng.choice(C_RESULTS) if rng.random() < 0.5 else [rng.choice(LEGAL_RES_POOL)]
+        if rng.random() < 0.1 and not vararg:
+            args, nfixed, res = ['rblk:%d' % rng.choice([17, 24, 40])] + args, nfixed + 1, []
+        return dict(args=args, nfixed=nfixed, vararg=vararg, res=res, style='c-' + style)
     return dict(args=args, nfixed=nfixed, vararg=vararg, res=gen_results(rng), style=style)
 
 
@@ -437,11 +449,13 @@ def img_fields(img):
                 count=int.from_bytes(img[248:256], 'little'))
 
 
-def compare_c05(proto, m, impl, rets):
+def compare_c05(proto, m, impl, rets, results_only=False):
     """returns list of mismatch descriptions (empty = the call followed the ABI)"""
     bad = []
     if impl['status'] != 'ok':
         return ['%s %s' % (impl['status'], impl.get('detail', ''))]
+    if results_only:
+        return compare_results(proto, m, impl, rets)
     img = impl['img']
     f = img_fields(img)
     if f['count'] != 1:
@@ -464,7 +478,12 @@ def compare_c05(proto, m, impl, rets):
         bad.append('x87 stack not empty at the call (tag word %04x)' % f['ftw'])
     if f['rflags'] & 0x400:
         bad.append('DF set at the call')
-    # results as MIR sees them
+    return bad + compare_results(proto, m, impl, rets)
+
+
+def compare_results(proto, m, impl, rets):
+    """results as MIR sees them"""
+    bad = []
     outs = impl['outs']
     for i, (t, rl) in enumerate(zip(proto['res'], m['res'])):
         got = outs[16 * i:16 * i + 16]
